@@ -16,6 +16,23 @@ point:
                count and the system bytes, not which of its three answers a built-in handler chooses for bad data)
   W clear -> no frame with its system bytes when the message is handled without error
 Primaries the handler originates itself (fresh system bytes: S6F11, S5F1, S1F1 ...) are answered by the scripted peer.
+
+History classes beyond "one primary at a time on a fresh link" (case["family"]):
+  restart - the SAME handler object lives through 2..3 sessions: handler.disable() + handler.enable() (while selected, or
+            after the peer dropped the connection), or the peer drops the connection and comes back while the handler stays
+            enabled; the scripted peer re-establishes communication each time (connect, Select, S1F13/S1F14) and the oracle
+            is applied to the primaries of the second and third session as well. Restart ops also occur (rarely) inside the
+            long mixed histories of the main family.
+  burst   - 2..5 primaries arrive without the endpoint coming to rest in between: in one TCP segment ("joined"), or each one
+            the instant the peer sees new output of the handler ("on-output": a peer that fires its next primary as soon as
+            the previous answer shows up), or a mix; under a PRNG schedule with parked line-level preemptions in the
+            receiver -> dispatcher hand-over (ProtocolDispatcher.queue_block / _dispatcher_thread_function). Primaries
+            without W-bit in a burst come from the silent classes (no callback, uncatalogued, callback that sends nothing).
+            The oracle looks at the first quiescent point after the burst; the peer sends nothing in between except the
+            answers to primaries the handler originates itself, so a primary stranded inside the endpoint is not rescued
+            by later traffic. User-callback behaviour is keyed by the primary's system bytes (members of a burst are handled
+            while later ones are already on the wire); one remote-command behaviour per burst.
+A miscount seen in one of these classes gets the bucket suffix :in-burst / :after-restart.
 """
 
 from __future__ import annotations
@@ -34,13 +51,21 @@ RULE = (
     "Sequences of 1..12 (quick) / 1..30 (thorough) inbound primaries; (S,F) drawn with equal weight from the classes "
     "built-in handler / user callback (returns secondary | sends it itself | raises) / catalogued without callback / "
     "uncatalogued (any S 1..127, odd F 1..255); W in {0,1}; body in {valid, empty, truncated, random bytes, valid body of "
-    "another function}; S2F41 with registered rcmd callbacks that succeed or raise; host and equipment role. Non-trivial = "
-    "malformed/empty body, or uncatalogued S/F, or failing callback, or >= 10 messages mixing all classes; distinct by case hash."
+    "another function}; S2F41 with registered rcmd callbacks that succeed or raise; host and equipment role. Families (10:2:4): "
+    "main (the above, plus callback register/unregister ops and, 1 slot in 24, a link restart); restart (2..3 sessions of the "
+    "same handler object, separated by disable+enable | peer close then disable+enable | peer reconnect, communication "
+    "re-established by the peer, 1..3 primaries per later session, W-bit in 4 of 5); burst (1..4 bursts of 2..5 primaries, "
+    "members joined in one segment | sent the instant handler output is seen | mixed, PRNG schedule seed/switch 0.5|0.9 with "
+    "parked preemptions p 0.05..0.2 in queue_block/_dispatcher_thread_function, no other traffic before the oracle looks). "
+    "Non-trivial = malformed/empty body, or uncatalogued S/F, or failing callback, or a control op (callback change, restart), or "
+    "a burst, or >= 10 messages mixing all classes; distinct by case hash."
 )
 ASSUMPTIONS = [
     "for built-in handlers and malformed bodies any ONE of the statement's three answers is accepted",
     "a callback that raises on a primary WITHOUT W-bit is outside the statement (not 'handled without error')",
-    "default schedule; concurrency of the reply path is C06's subject",
+    "default schedule except in the burst family (PRNG schedule + preemptions in the receiver->dispatcher hand-over); concurrent requesters on the reply path are C06's subject",
+    "after a link restart the statement applies again once the scripted peer has re-established communication (COMMUNICATING)",
+    "in a burst the oracle is evaluated at the first quiescent point after the last member (virtual time does not advance, no T3 expiry)",
 ]
 BUDGET_S = {"quick": 110, "thorough": 1200}
 
@@ -65,14 +90,80 @@ NOCB = [(1, 21), (1, 23), (2, 21), (2, 23), (2, 25), (2, 43), (2, 45), (2, 47), 
 UNCAT = [(99, 1), (1, 99), (127, 255), (64, 1), (3, 1), (8, 1), (1, 5), (2, 1), (100, 101), (11, 11)]
 
 
+def _draw_msg(draw, builtin, wdist=(1, 1, 0), quiet_w0=False):
+    """One inbound primary (plain data). quiet_w0: a primary WITHOUT W-bit is drawn from the classes that stay silent
+    (no callback / uncatalogued / a user callback that sends the secondary itself), so that it is 'handled without error'."""
+    w = draw(st.sampled_from(list(wdist)))
+    cls = draw(st.sampled_from(["nocb", "uncat", "user"] if (quiet_w0 and not w) else ["builtin", "user", "nocb", "uncat"]))
+    if cls == "builtin":
+        sf = draw(st.sampled_from(builtin))
+    elif cls == "user":
+        sf = draw(st.sampled_from(sorted(USER)))
+    elif cls == "nocb":
+        sf = draw(st.sampled_from(NOCB))
+    else:
+        sf = draw(st.one_of(st.sampled_from(UNCAT), st.tuples(st.integers(1, 127), st.integers(0, 127).map(lambda x: 2 * x + 1))))
+    m = {"cls": cls, "sf": list(sf), "w": w, "body": draw(st.sampled_from(["valid", "valid", "valid", "empty", "trunc", "random", "other"]))}
+    if m["body"] == "random":
+        m["raw"] = draw(st.binary(min_size=1, max_size=12)).hex()
+    if cls == "user":
+        m["cb"] = "self_send" if (quiet_w0 and not w) else draw(st.sampled_from(["return", "return", "self_send", "raise"]))
+        if quiet_w0 and not w:
+            m["body"] = "valid"
+    if tuple(sf) == (2, 41):
+        m["rcmd"] = draw(st.sampled_from(["ok", "raise", "unknown"]))
+    if m["body"] == "valid" and draw(st.integers(0, 2)) == 0:
+        m["fill"] = draw(st.sampled_from([1, 2]))  # open lists of the structure carry 1 or 2 members instead of none
+    sysb = draw(st.sampled_from([None, None, None, None, None, 0, 1, 0x7FFFFFFF, 0x80000000, 0xFFFFFFFF]))
+    if sysb is not None:
+        m["sys"] = sysb  # boundary system bytes (0 and 2^32-1 are legal); otherwise the peer's running counter
+    return m
+
+
+RESTART_HOW = ["disable", "disable", "peer-close", "reconnect"]
+
+
 @st.composite
 def case_strategy(draw, max_msgs=12):
     role = draw(st.sampled_from(["equipment", "equipment", "host"]))
     builtin = EQ_BUILTIN if role == "equipment" else HOST_BUILTIN
+    family = draw(st.sampled_from(["main"] * 10 + ["restart"] * 2 + ["burst"] * 4))
+    if family == "restart":
+        # focused family: the SAME handler object lives through 2..3 sessions (disabled and enabled again, or the link drops
+        # and the peer comes back); communication is re-established by the scripted peer and primaries arrive in every session
+        msgs = []
+        for k in range(draw(st.sampled_from([2, 2, 3]))):
+            if k:
+                msgs.append({"ctl": "restart", "how": draw(st.sampled_from(RESTART_HOW))})
+            for _ in range(draw(st.integers(1 if k else 0, 3))):
+                msgs.append(_draw_msg(draw, builtin, wdist=(1, 1, 1, 1, 0), quiet_w0=True))
+        return {"role": role, "msgs": msgs, "family": "restart"}
+    if family == "burst":
+        # focused family: 2..5 primaries arrive without the endpoint going idle in between - in one segment / back to back
+        # ("joined") or each one the instant the peer sees output of the handler ("on-output", a peer that fires its next
+        # primary as soon as the previous answer shows up) - under a PRNG schedule with parked preemptions in the
+        # receiver -> dispatcher hand-over. Nothing else is sent before the oracle looks (no rescuing traffic).
+        sched = {"seed": draw(st.integers(1, 2**31)), "switch": draw(st.sampled_from([0.5, 0.9])), "pprob": draw(st.sampled_from([0.05, 0.1, 0.2])),
+                 "hot": ["_dispatcher_thread_function", "queue_block"]}
+        msgs = []
+        for _ in range(draw(st.integers(1, 4))):
+            arrival = draw(st.sampled_from(["joined", "on-output", "mixed"]))
+            group = []
+            for _ in range(draw(st.sampled_from([2, 2, 3, 3, 4, 5]))):
+                m = _draw_msg(draw, builtin, wdist=(1, 1, 1, 0), quiet_w0=True)
+                m["arrive"] = draw(st.sampled_from(["joined", "on-output"])) if arrival == "mixed" else arrival
+                group.append(m)
+            msgs.append({"burst": group})
+        return {"role": role, "msgs": msgs, "sched": sched, "family": "burst"}
     n = draw(st.integers(1, max_msgs))
     msgs = []
     for _ in range(n):
-        if draw(st.integers(0, 7)) == 0:
+        k = draw(st.integers(0, 23))
+        if k == 23:
+            # link restart inside a long mixed history
+            msgs.append({"ctl": "restart", "how": draw(st.sampled_from(RESTART_HOW))})
+            continue
+        if k < 3:
             # the application removes / re-installs one of its callbacks between messages
             seen = [tuple(x["sf"]) for x in msgs if "ctl" not in x and tuple(x["sf"]) in USER]
             sf = draw(st.sampled_from(seen)) if seen and draw(st.booleans()) else draw(st.sampled_from(sorted(USER)))
@@ -80,28 +171,7 @@ def case_strategy(draw, max_msgs=12):
             # ... and the same function arrives again afterwards
             msgs.append({"cls": "user", "sf": list(sf), "w": 1, "body": "valid", "cb": draw(st.sampled_from(["return", "raise"]))})
             continue
-        cls = draw(st.sampled_from(["builtin", "user", "nocb", "uncat"]))
-        if cls == "builtin":
-            sf = draw(st.sampled_from(builtin))
-        elif cls == "user":
-            sf = draw(st.sampled_from(sorted(USER)))
-        elif cls == "nocb":
-            sf = draw(st.sampled_from(NOCB))
-        else:
-            sf = draw(st.one_of(st.sampled_from(UNCAT), st.tuples(st.integers(1, 127), st.integers(0, 127).map(lambda x: 2 * x + 1))))
-        m = {"cls": cls, "sf": list(sf), "w": draw(st.sampled_from([1, 1, 0])), "body": draw(st.sampled_from(["valid", "valid", "valid", "empty", "trunc", "random", "other"]))}
-        if m["body"] == "random":
-            m["raw"] = draw(st.binary(min_size=1, max_size=12)).hex()
-        if cls == "user":
-            m["cb"] = draw(st.sampled_from(["return", "return", "self_send", "raise"]))
-        if tuple(sf) == (2, 41):
-            m["rcmd"] = draw(st.sampled_from(["ok", "raise", "unknown"]))
-        if m["body"] == "valid" and draw(st.integers(0, 2)) == 0:
-            m["fill"] = draw(st.sampled_from([1, 2]))  # open lists of the structure carry 1 or 2 members instead of none
-        sysb = draw(st.sampled_from([None, None, None, None, None, 0, 1, 0x7FFFFFFF, 0x80000000, 0xFFFFFFFF]))
-        if sysb is not None:
-            m["sys"] = sysb  # boundary system bytes (0 and 2^32-1 are legal); otherwise the peer's running counter
-        msgs.append(m)
+        msgs.append(_draw_msg(draw, builtin))
     return {"role": role, "msgs": msgs}
 
 
@@ -146,23 +216,54 @@ def _valid_body(sf, role, handler, fill=0):
     return e5.encode(_minimal(fn.shape, _CAT["items"], fill))
 
 
+def _reestablish(rig, how, k):
+    """Link restart on the SAME handler object; the scripted peer re-establishes communication.
+    disable: handler.disable() while selected, handler.enable(); peer-close: the peer drops the connection first, then
+    disable/enable; reconnect: the peer drops the connection and comes back (the handler stays enabled)."""
+    sim = rig.sim
+    if how in ("peer-close", "reconnect"):
+        rig.peer.close()
+        sim.settle()
+    if how != "reconnect":
+        st, _ = rig.disable()
+        if st != "done":
+            return False
+        rig.drain()
+        return rig.establish()
+    if not rig.connect_peer() or not rig.select_from_peer(0x2001 + k):
+        return False
+    for _ in range(8):
+        sim.settle()
+        frames = rig.data_out()
+        for f in frames:
+            if (f["stream"], f["function"]) == (1, 13) and f["w"]:
+                item = (L, [(B, b"\x00"), (L, [])]) if rig.role == "equipment" else (L, [(B, b"\x00"), (L, [(A, b"peer"), (A, b"1.0")])])
+                rig.send_sf(1, 14, 0, item, system=f["system"])
+            elif (f["stream"], f["function"]) == (1, 1) and f["w"]:
+                rig.send_sf(1, 2, 0, (L, []), system=f["system"])
+        if not frames and rig.comm_state() == "COMMUNICATING":
+            break
+    return rig.comm_state() == "COMMUNICATING"
+
+
 def run_case(case, observe=None):
     role = case["role"]
-    stats = {"malformed": 0, "uncat": 0, "failing_cb": 0, "classes": set()}
-    with hsmsrig.make_world({}) as w:
+    stats = {"malformed": 0, "uncat": 0, "failing_cb": 0, "classes": set(), "sessions": 1, "later_session_w": 0, "burst_msgs": 0, "burst_max": 0, "preempts": 0}
+    with hsmsrig.make_world(case.get("sched", {})) as w:
         sim = w.sim
         rig = gemrig.GemRig(w, role=role, t3=10, handler_kwargs={"initial_control_state": "HOST_OFFLINE"} if role == "equipment" else None)
         h = rig.h
         import secsgem.secs
 
-        # user callbacks (behaviour switched per message through `mode`)
+        # user callbacks (behaviour switched per message through `mode`, keyed by the primary's system bytes: the members of
+        # a burst are handled while later ones are already on the wire)
         mode = {}
 
         def mk_cb(sf):
             sec_sf, sec_item = USER[sf][1], USER[sf][2]
 
             def cb(handler, message):
-                beh = mode.get("cb", "return")
+                beh = mode.get(message.header.system, "return")
                 if beh == "raise":
                     raise RuntimeError("user callback fails")
                 fn = handler.stream_function(*sec_sf)()
@@ -187,16 +288,10 @@ def run_case(case, observe=None):
             return Failure("setup-failed", case, rig.comm_state(), "COMMUNICATING")
         rig.data_out()
         catalogued = {(c.stream, c.function) for c in h.settings.streams_functions._functions}
-        for i, m in enumerate(case["msgs"]):
+
+        def prepare(m, rcmd_raise, taken):
+            """Classify one primary against the handler's present callback table and build its frame."""
             sf = tuple(m["sf"])
-            if "ctl" in m:
-                if m["ctl"] == "unregister":
-                    h.unregister_stream_function(sf[0], sf[1])
-                    stats["unregistered"] = stats.get("unregistered", 0) + 1
-                else:
-                    h.register_stream_function(sf[0], sf[1], mk_cb(sf))
-                continue
-            cls = m["cls"]
             # the label is a generation hint; the real class comes from the catalogue and the registered callbacks
             has_callback = f"s{sf[0]:02d}f{sf[1]:02d}" in h.callbacks
             if sf in USER and has_callback:
@@ -207,11 +302,11 @@ def run_case(case, observe=None):
                 cls = "nocb"
             else:
                 cls = "uncat"
-            mode.clear()
-            mode["cb"] = m.get("cb", "return")
-            mode["rcmd"] = m.get("rcmd", "ok")
+            rcmd = m.get("rcmd")
+            if rcmd == "ok" and rcmd_raise:
+                rcmd = "raise"  # one remote-command behaviour per burst (the callback gets no message to tell them apart)
             body = _valid_body(sf, role, h, fill=m.get("fill", 0))
-            if sf == (2, 41) and m.get("rcmd") == "unknown":
+            if sf == (2, 41) and rcmd == "unknown":
                 body = e5.encode((L, [(A, b"NOPE"), (L, [])]))
             kind = m["body"]
             if kind == "empty":
@@ -230,26 +325,21 @@ def run_case(case, observe=None):
                 stats["malformed"] += 1
             if cls == "uncat":
                 stats["uncat"] += 1
-            if m.get("cb") == "raise" or m.get("rcmd") == "raise":
+            if m.get("cb") == "raise" or rcmd == "raise":
                 stats["failing_cb"] += 1
             s = m["sys"] if m.get("sys") is not None else rig.next_sys()
-            header10 = e37.data_frame(0, sf[0], sf[1], m["w"], s, b"")[4:14]
-            rig.feed(e37.data_frame(0, sf[0], sf[1], m["w"], s, body2))
-            # collect until quiescent; answer primaries the handler originates
-            mine = []
-            for _ in range(6):
-                sim.settle()
-                fr = rig.data_out()
-                if not fr:
-                    break
-                for f in fr:
-                    if f["system"] == s:
-                        mine.append(f)
-                    elif f["w"]:
-                        rig.send_sf(f["stream"], f["function"] + 1, 0, (B, b"\x00") if f["stream"] in (5, 6, 10) else (L, []), system=f["system"])
+            while s in taken:  # the members of one burst are told apart by their system bytes
+                s = rig.next_sys()
+            taken.add(s)
+            mode[s] = m.get("cb", "return")
+            return {"m": m, "sf": sf, "cls": cls, "rcmd": rcmd, "kind": kind, "malformed": malformed, "sys": s,
+                    "header10": e37.data_frame(0, sf[0], sf[1], m["w"], s, b"")[4:14], "frame": e37.data_frame(0, sf[0], sf[1], m["w"], s, body2)}
+
+        def judge(i, r, mine, where):
+            m, sf, cls, kind, malformed, rcmd = r["m"], r["sf"], r["cls"], r["kind"], r["malformed"], r["rcmd"]
 
             def fail(bucket, obs, exp):
-                return Failure(bucket, case, f"msg#{i} S{sf[0]}F{sf[1]} W={m['w']} body={kind} cls={cls} cb={m.get('cb')} rcmd={m.get('rcmd')}: {obs}", exp)
+                return Failure(bucket, case, f"msg#{i}{where} S{sf[0]}F{sf[1]} W={m['w']} body={kind} cls={cls} cb={m.get('cb')} rcmd={rcmd}: {obs}", exp)
 
             got = [(f["stream"], f["function"]) for f in mine]
             has_cb = cls in ("builtin", "user")
@@ -258,20 +348,20 @@ def run_case(case, observe=None):
                     why = "uncatalogued" if sf not in catalogued else ("malformed-body" if malformed else "wellformed")
                     return fail(f"no-reply:{why}:{'callback' if has_cb else 'no-callback'}", got, "exactly one reply")
                 if len(mine) > 1:
-                    return fail(f"multiple-replies:{'rcmd-raises' if m.get('rcmd') == 'raise' else cls}", got, "exactly one reply")
-                r = mine[0]
-                rsf = (r["stream"], r["function"])
-                if r["w"]:
+                    return fail(f"multiple-replies:{'rcmd-raises' if rcmd == 'raise' else cls}", got, "exactly one reply")
+                rep = mine[0]
+                rsf = (rep["stream"], rep["function"])
+                if rep["w"]:
                     return fail("reply-has-wbit", rsf, "secondary without W")
                 if not has_cb:
                     if rsf != (9, 5):
                         return fail("no-callback-not-s9f5", rsf, "S9F5")
                     try:
-                        item = e5.decode_all(r["body"])
+                        item = e5.decode_all(rep["body"])
                     except e5.E5Error as exc:
                         return fail("s9f5-body-invalid", repr(exc), "B item with header")
-                    if item != (B, header10):
-                        return fail("s9f5-header-mismatch", item, (B, header10))
+                    if item != (B, r["header10"]):
+                        return fail("s9f5-header-mismatch", item, (B, r["header10"]))
                 elif cls == "user" and not malformed:
                     if m.get("cb", "return") == "raise":
                         if rsf != (sf[0], 0):
@@ -279,37 +369,130 @@ def run_case(case, observe=None):
                     else:
                         if rsf != USER[sf][1]:
                             return fail("callback-secondary-not-sent", rsf, USER[sf][1])
-                        if r["body"] != e5.encode(USER[sf][2]):
-                            return fail("callback-secondary-body-changed", r["body"].hex(), e5.encode(USER[sf][2]).hex())
+                        if rep["body"] != e5.encode(USER[sf][2]):
+                            return fail("callback-secondary-body-changed", rep["body"].hex(), e5.encode(USER[sf][2]).hex())
                 else:
                     if rsf not in ((sf[0], sf[1] + 1), (sf[0], 0)) and rsf[0] != 9:
                         return fail("reply-wrong-function", rsf, f"S{sf[0]}F{sf[1] + 1} or S{sf[0]}F0 or S9Fx")
             else:
-                handled_without_error = not malformed and m.get("cb") != "raise" and m.get("rcmd") != "raise"
+                handled_without_error = not malformed and m.get("cb") != "raise" and rcmd != "raise"
                 if handled_without_error and mine:
                     return fail("reply-without-wbit" if has_cb else "s9f5-without-wbit", got, "no reply")
+            return None
+
+        for i, m in enumerate(case["msgs"]):
+            if "ctl" in m:
+                if m["ctl"] == "restart":
+                    rig.data_out()
+                    if not _reestablish(rig, m.get("how", "disable"), stats["sessions"]):
+                        return Failure("setup-failed", case, f"session {stats['sessions'] + 1} ({m.get('how')}): {rig.comm_state()}", "COMMUNICATING")
+                    rig.data_out()
+                    stats["sessions"] += 1
+                    continue
+                sf = tuple(m["sf"])
+                if m["ctl"] == "unregister":
+                    h.unregister_stream_function(sf[0], sf[1])
+                    stats["unregistered"] = stats.get("unregistered", 0) + 1
+                else:
+                    h.register_stream_function(sf[0], sf[1], mk_cb(sf))
+                continue
+            group = m["burst"] if "burst" in m else [m]
+            mode.clear()
+            rcmd_raise = any(x.get("rcmd") == "raise" for x in group)
+            mode["rcmd"] = "raise" if rcmd_raise else "ok"
+            taken = set()
+            recs = [prepare(x, rcmd_raise and len(group) > 1, taken) for x in group]
+            out = []
+            if len(group) == 1:
+                rig.feed(recs[0]["frame"])
+            else:
+                # burst: the endpoint never goes idle between two members. "joined" members share one segment with their
+                # predecessor; an "on-output" member is sent the instant the peer sees any new output of the handler
+                # (or, if none comes, once the handler has come to rest)
+                stats["burst_msgs"] += len(group)
+                stats["burst_max"] = max(stats["burst_max"], len(group))
+                pend = b""
+                for k, r in enumerate(recs):
+                    if k and r["m"].get("arrive", "joined") == "on-output":
+                        out += rig.data_out()
+                        rig.feed(pend, settle=False)
+                        pend = b""
+                        sim.pump(stop=lambda: bool(rig.peer.rx))
+                    pend += r["frame"]
+                rig.feed(pend, settle=False)
+            # collect until quiescent; answer primaries the handler originates (also those seen while the burst was going out)
+            fr = list(out)
+            for _ in range(12):
+                sim.settle()
+                new = rig.data_out()
+                out += new
+                fr += new
+                if not fr:
+                    break
+                for f in fr:
+                    if f["system"] not in taken and f["w"]:
+                        rig.send_sf(f["stream"], f["function"] + 1, 0, (B, b"\x00") if f["stream"] in (5, 6, 10) else (L, []), system=f["system"])
+                fr = []
+            for k, r in enumerate(recs):
+                if r["m"]["w"] and stats["sessions"] > 1:
+                    stats["later_session_w"] += 1
+                f = judge(i, r, [x for x in out if x["system"] == r["sys"]], f".{k}/{len(recs)}" if len(recs) > 1 else "")
+                if f is not None:
+                    if f.bucket.startswith(("no-reply:", "multiple-replies:")):
+                        # the count went wrong in a history class of its own: name it (a different cause than a handler that
+                        # miscounts for a single message on a fresh link)
+                        f.bucket += (":in-burst" if len(recs) > 1 else "") + (":after-restart" if stats["sessions"] > 1 else "")
+                    return f
+        stats["preempts"] = len(sim.preempt_hits)
         if observe is not None:
-            observe.update({"malformed": stats["malformed"], "uncat": stats["uncat"], "failing_cb": stats["failing_cb"], "nclasses": len(stats["classes"])})
+            observe.update({"malformed": stats["malformed"], "uncat": stats["uncat"], "failing_cb": stats["failing_cb"], "nclasses": len(stats["classes"]),
+                            "sessions": stats["sessions"], "later_session_w": stats["later_session_w"], "burst_msgs": stats["burst_msgs"],
+                            "burst_max": stats["burst_max"], "preempts": stats["preempts"]})
     return None
 
 
 def plan(tier, seed):
     quick = tier == "quick"
-    return [("gen", {"shard": i, "n": 150 if quick else 1500, "max_msgs": 12 if quick else 30}) for i in range(16)]
+    return [("gen", {"shard": i, "n": 120 if quick else 1200, "max_msgs": 12 if quick else 30}) for i in range(16)]
+
+
+def _flat(case):
+    for m in case["msgs"]:
+        if "burst" in m:
+            yield from m["burst"]
+        else:
+            yield m
 
 
 def run_task(name, kw, ctx):
     def body(case):
         obs = {}
         f = run_case(case, obs)
-        nt = bool(obs.get("malformed") or obs.get("uncat") or obs.get("failing_cb") or any("ctl" in m for m in case["msgs"]) or (len(case["msgs"]) >= 10 and obs.get("nclasses", 0) >= 4))
-        cls = [case["role"]]
+        flat = list(_flat(case))
+        nt = bool(obs.get("malformed") or obs.get("uncat") or obs.get("failing_cb") or any("ctl" in m for m in flat) or obs.get("burst_msgs")
+                  or (len(flat) >= 10 and obs.get("nclasses", 0) >= 4))
+        cls = [case["role"], f"family:{case.get('family', 'main')}"]
         for k in ("malformed", "uncat", "failing_cb"):
             if obs.get(k):
                 cls.append(k)
+        if obs.get("sessions", 1) > 1:
+            cls.append(f"sessions:{min(obs['sessions'], 3)}{'+' if obs['sessions'] > 3 else ''}")
+        if obs.get("later_session_w"):
+            cls.append("w-primary-judged-in-later-session")
+            ctx.count("w-primaries-judged-in-later-sessions", obs["later_session_w"])
+        if obs.get("burst_msgs"):
+            cls.append(f"burst-max:{obs['burst_max']}")
+            cls.append("burst-with-preemptions" if obs.get("preempts") else "burst-without-preemptions")
+            ctx.count("primaries-judged-in-bursts", obs["burst_msgs"])
         for m in case["msgs"]:
+            if "burst" in m:
+                arr = {x.get("arrive", "joined") for x in m["burst"][1:]}
+                cls.append("burst:" + ("mixed" if len(arr) > 1 else (sorted(arr)[0] if arr else "single")))
+                if any(not x["w"] for x in m["burst"][:-1]) and any(x["w"] for x in m["burst"][1:]):
+                    cls.append("burst:silent-primary-before-w-primary")
+        for m in flat:
             if "ctl" in m:
-                cls.append(f"ctl:{m['ctl']}")
+                cls.append(f"ctl:{m['ctl']}" + (f":{m.get('how', 'disable')}" if m["ctl"] == "restart" else ""))
                 continue
             cls.append(f"cls:{m['cls']}")
             cls.append(f"body:{m['body']}")
